@@ -311,7 +311,7 @@ NamedEdges(prod, cons) ==
         pms  == [prod.ms EXCEPT !.outs = [i \in DOMAIN prod.ms.outs |->
                                             Arr(RenameAll(prod.steps, prod.ms.outs[i].n), prod.ms.outs[i].ax)]]
         edge(i) == [p |-> OutputAnn(prod, cons.params[i].n), c |-> cons.params[i].t,
-                    via |-> ViaOf(pms, cons.ms, cons.params[i].n)]
+                    via |-> ViaOf(pms, cons.ms, cons.params[i].n), n |-> cons.params[i].n]
     IN  {edge(i) : i \in hit}
 ConstructNamed(prod, cons, validate) ==
     LET es == NamedEdges(prod, cons)
